@@ -964,6 +964,7 @@ func (f *Frame) instr(instr ssa.Instruction) bool {
 	case *ssa.BinOp:
 		f.vals[x] = f.binop(x.Op, f.val(x.X), f.val(x.Y), x.Type(), x.Pos())
 	case *ssa.Store:
+		f.siteGlobalStore(x)
 		f.store(f.val(x.Addr), f.val(x.Val), x.Pos())
 	case *ssa.Phi:
 		unsupported("phi in the middle of a block")
